@@ -180,6 +180,77 @@ type choiceIter struct {
 	perm   []int        // for rot: fixed order (indices)
 	pos    int
 	started bool
+	guard  ssa.Value // skip-guard reduction: the map X of `for k := range m { if X[k] { continue } ... }`
+}
+
+// skipGuard recognises the loop shape
+//
+//	for k := range m { if X[k] { continue }; ... }
+//
+// structurally on the SSA and returns X.  For such a loop the iteration of a
+// key that is already marked in X is a no-op at whatever position it is
+// delivered (X only matters through this test and a marked key stays a no-op
+// as long as it stays marked), so only the relative order of the currently
+// unmarked keys is a schedule choice; marked keys are delivered last.  The
+// reduction is applied only while every marked key is mapped to the constant
+// true and nothing in the loop can unmark a key is NOT assumed: a key is
+// re-classified at every step.
+func skipGuard(r *ssa.Range) ssa.Value {
+	refs := r.Referrers()
+	if refs == nil {
+		return nil
+	}
+	var next *ssa.Next
+	for _, ref := range *refs {
+		if n, ok := ref.(*ssa.Next); ok {
+			if next != nil {
+				return nil
+			}
+			next = n
+		}
+	}
+	if next == nil {
+		return nil
+	}
+	loop := next.Block()
+	ifi, ok := loop.Instrs[len(loop.Instrs)-1].(*ssa.If)
+	if !ok {
+		return nil
+	}
+	body := loop.Succs[0]
+	_ = ifi
+	var key ssa.Value
+	var lk *ssa.Lookup
+	for _, in := range body.Instrs {
+		switch x := in.(type) {
+		case *ssa.DebugRef:
+			continue
+		case *ssa.Extract:
+			if x.Tuple == next && x.Index == 1 && key == nil {
+				key = x
+				continue
+			}
+			return nil
+		case *ssa.Lookup:
+			if lk == nil && key != nil && x.Index == key && !x.CommaOk {
+				if mt, ok := x.X.Type().Underlying().(*types.Map); ok {
+					if b, ok := mt.Elem().Underlying().(*types.Basic); ok && b.Kind() == types.Bool {
+						lk = x
+						continue
+					}
+				}
+			}
+			return nil
+		case *ssa.If:
+			if lk != nil && x.Cond == lk && body.Succs[0] == loop {
+				return lk.X
+			}
+			return nil
+		default:
+			return nil
+		}
+	}
+	return nil
 }
 
 func (st *pstate) schedPolicy(fr *frame) string {
@@ -232,6 +303,9 @@ func (st *pstate) rangeIter(fr *frame, instr *ssa.Range, x value) iter {
 			it.n0 = len(it.ord.keys)
 		}
 		it.policy = st.schedPolicy(fr)
+		if it.policy != "first" && !st.ex.Cfg.NoSkipGuard {
+			it.guard = skipGuard(instr)
+		}
 		return it
 	case symStr:
 		return &symStringIter{st: st, s: x}
@@ -280,6 +354,33 @@ func (it *choiceIter) next() tuple {
 	c := it.candidates()
 	if len(c) == 0 {
 		return tuple{false, nil, nil}
+	}
+	if it.guard != nil {
+		// skip-guard reduction: only unmarked keys are schedule choices
+		if gm, ok := it.fr.get(it.guard).(map[value]value); ok {
+			var unmarked, marked []int
+			for _, i := range c {
+				k := it.ord.keys[i]
+				if _, isStr := k.(string); !isStr {
+					unmarked = nil
+					marked = nil
+					break
+				}
+				if b, ok := gm[k].(bool); ok && b {
+					marked = append(marked, i)
+				} else {
+					unmarked = append(unmarked, i)
+				}
+			}
+			if len(unmarked) > 0 {
+				c = unmarked
+			} else if len(marked) > 0 {
+				idx := marked[0]
+				it.done[idx] = true
+				k := it.ord.keys[idx]
+				return tuple{true, k, it.m[k]}
+			}
+		}
 	}
 	if it.st.ex.Cfg.MapOrder == "reverse" {
 		for i, j := 0, len(c)-1; i < j; i, j = i+1, j-1 {
